@@ -54,6 +54,8 @@ func c06NewL1(s c06Sess) *c06L1 {
 	f.isEBGP = s.pt != c06IBGP
 	f.isConfed = s.pt == c06Confed
 	f.isTreatAsWithdraw = s.taw
+	f.twoByteAsTrans = s.as2
+	f.extendedMessage.Store(s.ext)
 	mode := bgp.BGP_ADD_PATH_NONE
 	if s.addPath {
 		mode = bgp.BGP_ADD_PATH_RECEIVE
@@ -154,6 +156,7 @@ func (l *c06L1) run(c *c06Case) *c06Obs {
 // c06Make applies the faults to a copy of the base. ok=false: some fault does not apply to this base.
 func c06Make(layer int, s c06Sess, bi int, faults []*c06Fault, pos []int) (*c06Case, bool) {
 	m := c06BuildBase(bi, s.pt)
+	c06ForSession(s, m.attrs)
 	c := &c06Case{layer: layer, sess: s, base: bi, faults: faults, pos: pos, msg: m}
 	for i, f := range faults {
 		if f.peers&(1<<uint(s.pt)) == 0 {
